@@ -38,6 +38,20 @@ TEXTS = {
              "max_concurrency; Shutdown returns only with all loops returned and no export in flight; an internal step is always enabled (no deadlock, given "
              "exports return). Partial: data races and goroutine leaks are runtime properties. Tied by checking that each run's event log is a trace of the LTS.",
         design_ref="DESIGN.md 6/C11", note=_BP_NOTE + " Partial: race freedom / leaks not expressible.", technique="Coq proof (LTS invariants, progress) + trace acceptance"),
+    "C14": dict(
+        text="Theorems over the model of LimitedAllocator with its uint64 wrap-around arithmetic, for EVERY well-bracketed sequence of allocate / resize (growing or "
+             "shrinking) / free: in-use equals the sum of live blocks and never exceeds the limit; a refusal changes nothing and reports a request that really does "
+             "not fit; raising the limit keeps every accepted operation accepted with the same in-use; a LimitError is recognisable through any wrapper chain. "
+             "Partial: the arrow-go recover path is a library contract, checked on every run by decoding real streams under 10 limits.",
+        design_ref="DESIGN.md 6/C14", note="Trusted: Coq kernel + vm_compute; no axioms; the Go harness. arrow-go internals and Go errors.Is are modelled/assumed, re-validated by correspondence.",
+        technique="Coq proof (invariant over op sequences, mod 2^64 arithmetic) + allocator differential + consumer-under-limits runs"),
+    "C13": dict(
+        text="Theorem over the model of DictionaryField + RecordBuilderExt.NewRecord/UpdateSchema + the producer's retry loop, for EVERY history of batches, any number of "
+             "dictionary columns, every limit and threshold: each transmitted dictionary has at most as many entries as its index type addresses, the index type is within "
+             "the configured limit, none exists when dictionaries are disabled. Tied three ways on every run: op differential of the real DictionaryField, record-level "
+             "differential of the real RecordBuilderExt (incl. budget exhaustion), inspection of every record the real producer emits under every limit option.",
+        design_ref="DESIGN.md 6/C13", note="Trusted: Coq kernel + vm_compute; no axioms; Go harness; arrow-go dictionary builders assumed to memoise per builder.",
+        technique="Coq proof (invariant over histories) + op-sequence and record-level differentials + producer output inspection"),
 }
 
 NOT_APPLICABLE = []
